@@ -60,3 +60,51 @@ def shard_local_index(jobs):
             jj["tag"] = "%s#%d" % (j.get("tag", "job"), i)
             out.append(jj)
     return out
+
+
+# ---------------------------------------------------------------- documented keyword spellings
+_ALIASES = None
+
+
+def doc_aliases():
+    """(long name, short name) pairs of action keywords as documented in docs/config.adoc of the working tree
+    ("`tap-hold-press` or `tap⬓↓`"): both spellings denote the same action."""
+    global _ALIASES
+    if _ALIASES is None:
+        import re
+        text = open(os.path.join(REPO, "docs", "config.adoc"), encoding="utf-8").read()
+        pairs = {}
+        kw = open(os.path.join(REPO, "parser", "src", "cfg", "list_actions.rs"), encoding="utf-8").read()
+        for m in re.finditer(r"`\+?([a-z][a-z0-9-]*)\+?` or `\+?([^`+\s]+)\+?`", text):
+            long_, short = m.group(1), m.group(2)
+            # a unicode short name (not two ASCII keywords) that exists as a keyword of the parser (two short names are
+            # misspelt in the documentation: tap-hold⤫keys, word⇪-custom)
+            if not re.fullmatch(r"[a-z0-9-]+", short) and ('"%s"' % short) in kw and ('"%s"' % long_) in kw:
+                pairs[long_] = short
+        _ALIASES = pairs
+    return _ALIASES
+
+
+def respell(kbd):
+    """the configuration text with every documented long keyword at the head of a list replaced by its short name"""
+    import re
+    al = doc_aliases()
+
+    def sub(m):
+        return "(" + al.get(m.group(1), m.group(1)) + m.group(2)
+    return re.sub(r"\(([a-z][a-z0-9-]*)([\s)])", sub, kbd)
+
+
+def spelling_twins(jobs, keep=8):
+    """for every job whose configuration has a documented short spelling: a twin job with the respelled text, the same
+    monitor parameters (they come from the description, not from the text) and the first `keep` scripts"""
+    out = []
+    for j in jobs:
+        t = respell(j["cfg"])
+        if t != j["cfg"]:
+            jj = dict(j)
+            jj["cfg"] = t
+            jj["tag"] = j.get("tag", "job") + ":short"
+            jj["scripts"] = j["scripts"][:keep]
+            out.append(jj)
+    return out
